@@ -16,8 +16,11 @@ var outerT *testing.T
 func TestMain(m *testing.M) { pbt.Main(m, run) }
 
 func gen(t *rapid.T) mqrig.Case {
-	if rapid.IntRange(0, 2).Draw(t, "pattern") > 0 {
+	switch rapid.IntRange(0, 5).Draw(t, "pattern") {
+	case 0, 1, 2:
 		return mqrig.GenWindDown(t)
+	case 3:
+		return mqrig.GenBacklog(t)
 	}
 	return mqrig.Gen(t, false)
 }
